@@ -167,6 +167,19 @@ pub fn build(c: &Case) -> Result<(Emu, MemModel), String> {
         mach::poke(&mut e, &mut mm, v, target as u8);
         mach::poke(&mut e, &mut mm, v.wrapping_add(1), (target >> 8) as u8);
     }
+    // a machine whose latch is locked has usually seen further paging writes since (all ignored):
+    // what it saves is the latch the hardware holds, not the last value written to the port
+    if machine == Machine::K128 && c.latch & 0x20 != 0 && c.ram_seed % 2 == 0 {
+        let v = (c.ram_seed >> 8) as u8;
+        let page_no = 2usize;
+        let saved: Vec<u8> = e.verif_ram_page(2)[0..7].to_vec();
+        e.verif_ram_page_mut(page_no as u8)[0..7].copy_from_slice(&[0x01, 0xFD, 0x7F, 0x3E, v, 0xED, 0x79]);
+        mach::set_regs(&mut e, &RegFile { pc: 0x8000, sp: 0x9000, ..Default::default() });
+        mach::step_over(&mut e, 3)?;
+        mach::step_over(&mut e, 2)?;
+        mach::step_over(&mut e, 2)?;
+        e.verif_ram_page_mut(page_no as u8)[0..7].copy_from_slice(&saved);
+    }
     e.verif_refresh_memory_dependent_devices();
     mach::set_regs(&mut e, &c.regs);
     Ok((e, mm))
@@ -560,7 +573,7 @@ pub fn replay(run: &mut Run, phase: &str, case: &serde_json::Value) -> Result<()
 }
 
 pub const LEVEL: &str = "exploration";
-pub const RULE: &str = "case = machine x arbitrary register file (alternates, I, R, IM, IFF1/IFF2) x border x 128K latch (all 256 values incl. lock, bank 5/2 paged at 0xC000) x RAM contents (seeded pattern + sparse edits in every bank) x SP anywhere (a quarter of the cases at a 16 KiB page boundary +-2, so that the two bytes below SP lie in different pages) x receiver in {same emulator after 1..4 frames of a scrambling program, fresh, halted, stopped mid DD-chain, paging locked + other border, EI pending, stopped by a breakpoint somewhere inside a frame}. A seventh of the saved machines are halted; the host's recorder takes the file all at once or 1/5/1000/16383 bytes per call; in a fifth of the cases the host's recorder first refuses data after a generated number of bytes (the failed save must leave the machine as it was). Checked: (a) registers, every RAM bank, latch and border read through hooks are identical before and after save_snapshot, and the produced file parsed by the harness' own SNA parser describes that state; (b) after load_snapshot of the produced file every carried item, the latch with its lock, every RAM byte and all 65536 CPU-visible bytes equal the saved state; (c) the next 10 instructions, with the frame interrupt arriving on the way (or, in a third of the cases, already active when the loaded machine starts), match the reference machine continuing from the saved state; (d) the restored machine is then saved again and that file loaded into a fresh emulator must give the state it had (second generation). non-trivial = alternate set differs from main set, >= 2 RAM edits, receiver not fresh; distinct = hash of the case";
+pub const RULE: &str = "case = machine x arbitrary register file (alternates, I, R, IM, IFF1/IFF2) x border x 128K latch (all 256 values incl. lock, bank 5/2 paged at 0xC000; half of the locked machines have seen a further, ignored, paging write) x RAM contents (seeded pattern + sparse edits in every bank) x SP anywhere (a quarter of the cases at a 16 KiB page boundary +-2, so that the two bytes below SP lie in different pages) x receiver in {same emulator after 1..4 frames of a scrambling program, fresh, halted, stopped mid DD-chain, paging locked + other border, EI pending, stopped by a breakpoint somewhere inside a frame}. A seventh of the saved machines are halted; the host's recorder takes the file all at once or 1/5/1000/16383 bytes per call; in a fifth of the cases the host's recorder first refuses data after a generated number of bytes (the failed save must leave the machine as it was). Checked: (a) registers, every RAM bank, latch and border read through hooks are identical before and after save_snapshot, and the produced file parsed by the harness' own SNA parser describes that state; (b) after load_snapshot of the produced file every carried item, the latch with its lock, every RAM byte and all 65536 CPU-visible bytes equal the saved state; (c) the next 10 instructions, with the frame interrupt arriving on the way (or, in a third of the cases, already active when the loaded machine starts), match the reference machine continuing from the saved state; (d) the restored machine is then saved again and that file loaded into a fresh emulator must give the state it had (second generation). non-trivial = alternate set differs from main set, >= 2 RAM edits, receiver not fresh; distinct = hash of the case";
 pub const ASSUMPTIONS: &[&str] = &[
     "48K proviso of the property (two bytes below SP are RAM) is a generator-side skip, counted; on the 48K the two bytes below SP may hold PC after a load (format)",
     "IFF1 is not carried by the format: only IFF2 is compared",
